@@ -57,6 +57,7 @@ struct Run
   int probes = 0;
   int scrub = 1;
   int slowlog = 0;
+  int connect = 0;
   std::vector<TaskSpec> tasks;
   std::map<std::pair<int, int>, std::vector<Script>> scripts;
 };
@@ -543,6 +544,19 @@ static void execute_run(int out_fd)
       }
     }
     // ---- bind user-side handlers
+    // direct mode: handlers are assigned on the port object the accessor hands out;
+    // connect mode: the user owns a port object of its own, binds its handlers there and ties it to the shell with
+    // <ns>::ConnectPorts(strict port, strict port) - afterwards the user calls through its own port object.
+    std::vector<std::vector<void*>> shell_side = g_outer_obj;
+    if (R.connect)
+    {
+      for (size_t pi = 0; pi < g_model.ports.size(); ++pi)
+      {
+        PortDesc& pd = g_model.ports[pi];
+        if (pd.sem == 3) continue;
+        for (size_t k = 0; k < g_outer_obj[pi].size(); ++k) g_outer_obj[pi][k] = pd.make_user();
+      }
+    }
     for (size_t ei = 0; ei < g_model.events.size(); ++ei)
     {
       EventDesc& e = g_model.events[ei];
@@ -554,6 +568,17 @@ static void execute_run(int out_fd)
         if (is_unbound(0, static_cast<int>(ei), cl)) { e.unbind(g_outer_obj[static_cast<size_t>(e.port)][k]); continue; }
         e.bind(g_outer_obj[static_cast<size_t>(e.port)][k], EvCtx{static_cast<int>(ei), 0, cl});
       }
+    }
+    if (R.connect)
+    {
+      for (size_t pi = 0; pi < g_model.ports.size(); ++pi)
+      {
+        PortDesc& pd = g_model.ports[pi];
+        if (pd.sem == 3) continue;
+        for (size_t k = 0; k < g_outer_obj[pi].size(); ++k)
+          pd.connect(g_shell, pd.sem == 2 ? R.client_names[k] : std::string(), g_outer_obj[pi][k]);
+      }
+      rec("connected mode=ConnectPorts");
     }
     // unbinding of events whose handler the shell or component provides (user cannot leave those unbound on MTS
     // ports, but on STS ports the outer object is the component's own port): side 0 + handler inside
@@ -602,7 +627,7 @@ static void execute_run(int out_fd)
         try
         {
           void* again = pd.outer(g_shell, R.client_names[0]);
-          rec(std::string("probe_fetch_existing result=ok same=") + (again == g_outer_obj[static_cast<size_t>(g_model.mc_port)][0] ? "1" : "0"));
+          rec(std::string("probe_fetch_existing result=ok same=") + (again == shell_side[static_cast<size_t>(g_model.mc_port)][0] ? "1" : "0"));
         }
         catch (const std::exception& e)
         {
@@ -691,6 +716,7 @@ static bool parse_run(const std::vector<std::string>& lines, Run& R)
     else if (kw == "PROBES") is >> R.probes;
     else if (kw == "SCRUB") is >> R.scrub;
     else if (kw == "SLOWLOG") is >> R.slowlog;
+    else if (kw == "CONNECT") is >> R.connect;
     else if (kw == "TASK")
     {
       TaskSpec t;
